@@ -32,14 +32,10 @@ func ruleEqDynamic(c *Ctx) []Obligation {
 	// type kind const name -> the struct implementing ast.Type whose Kind() returns it
 	typeStruct := map[string]*types.Named{}
 	for _, fd := range AllFuncDecls(ap) {
-		if fd.Recv == nil || fd.Name.Name != "Kind" || fd.Body == nil || len(fd.Body.List) != 1 {
+		if fd.Recv == nil || fd.Name.Name != "Kind" || fd.Body == nil {
 			continue
 		}
-		ret, ok := fd.Body.List[0].(*ast.ReturnStmt)
-		if !ok || len(ret.Results) != 1 {
-			continue
-		}
-		k := ConstOf(ap.TypesInfo, ret.Results[0])
+		k := constOfBody(ap, fd, 0)
 		if k == nil {
 			continue
 		}
